@@ -1,1 +1,445 @@
+/-
+  Pfb.C07.Props — C07 "Successful auto-import makes code runnable; ambiguity is never guessed".
+
+  Model: `Pfb.AutoImp.Model` (shared with C06).  `C07_success_heads_bound`, `C07_provenance`,
+  `C07_ambiguous`, `C07_unknown` hold for EVERY import universe; `C07_success_resolves` needs the
+  explicit hypotheses `Sound` about the import system (see `Pfb.AutoImp.Resolve`).
+  "No NameError" at run time = every name the code reads at top level is bound; with the list
+  of missing names complete (C05), that is `HeadBound` for every missing name.
+-/
+import Pfb.AutoImp.Resolve
 import Pfb.AutoImp.PyWorld
+import Pfb.C06.Props
+namespace Pfb.C07
+open Pfb.AutoImp
+
+variable {W : Type}
+
+/-! ### C07_success_heads_bound -/
+
+/-- **C07_success_heads_bound.**  If `auto_import` reports success, the head of every missing
+    dotted name is bound in some namespace of the final stack (so reading it raises no NameError).
+    Any universe, any database keyed by `import_as`, any non-empty stack. -/
+theorem C07_success_heads_bound (U : Univ W) (db : DB) (hdb : DbKeyed db) (missing : List Dotted)
+    (st st' : State W) (hnss : st.nss ≠ []) (hne : ∀ d ∈ missing, d ≠ [])
+    (h : autoImport U db (some missing) st = (.ok true, st')) :
+    ∀ d ∈ missing, HeadBound st'.nss d := by
+  intro d hd
+  obtain ⟨pre, post, rfl⟩ := List.append_of_mem hd
+  obtain ⟨_, hall⟩ := foldSyms_true U db _ true st st' h
+  obtain ⟨s, s1, _, hstep, hrest, hlen⟩ := hall pre d post rfl
+  have hsn : s.nss ≠ [] := by
+    intro he; rw [he] at hlen; simp at hlen
+    exact hnss (List.eq_nil_of_length_eq_zero hlen.symm)
+  have hb := autoImportSymbol_true_headBound U db hdb false d s s1 hsn (hne d hd) hstep
+  have hfr := (reach_foldSyms U db post true s1).frame
+  rw [hrest] at hfr
+  exact hb.mono hfr
+
+example : ∃ (U : Univ Unit) (db : DB) (st st' : State Unit),
+    autoImport U db (some [[['a'], ['b']]]) st = (.ok true, st') ∧ st'.nss ≠ st.nss :=
+  ⟨⟨fun _ _ => (some 7, ()), fun _ _ => (true, ()), fun _ p => if p = [['a']] then some 7 else none,
+    fun _ _ _ => some 8⟩, [], ⟨[[]], [], [], (), []⟩, _, rfl, by decide⟩
+
+/-! ### C07_success_resolves -/
+
+/-- an entry that is not a plain `import a.b.c` binds a single name (`from m import n [as c]`, `import m as c`) -/
+def DbShape (db : DB) : Prop :=
+  ∀ k imps, db.lookup k = some imps → ∀ imp ∈ imps, imp.importAs ≠ imp.fullname → ∃ n, imp.importAs = [n]
+
+section
+variable {U : Univ W} {known : W → Obj → Prop} (hS : Sound U known)
+include hS
+
+theorem settles_of_walk {w : W} {ns : NS} {hd : Name} {tl : List Name} {v : Obj}
+    (hl : ns.lookup hd = some v) (hw : walk U w v [hd] tl ≠ .missingAttr) : settles U w (hd :: tl) ns = true := by
+  simp only [settles, hl]
+  simpa using hw
+
+omit hS in
+theorem sni_false_of_binding {w : W} {nss : List NS} {i : Nat} {hd : Name} {tl : List Name} {v : Obj}
+    (hi : i < nss.length) (hl : (getNs nss i).lookup hd = some v) (hw : walk U w v [hd] tl ≠ .missingAttr) :
+    symbolNeedsImport U w nss (hd :: tl) = false := by
+  refine (sni_false_iff U w nss _).2 ⟨getNs nss i, getNs_mem hi, ?_⟩
+  simp only [settles, hl]
+  simpa using hw
+
+theorem ancestorLoop_true_resolved (tgt : Nat) (ps : List Dotted) (st st' : State W)
+    (h : ancestorLoop U tgt ps st = (true, st')) (htgt : tgt < st.nss.length) (hne : ∀ p ∈ ps, p ≠ [])
+    (hk : NsKnown known st.w st.nss) :
+    ∀ p ∈ ps, symbolNeedsImport U st'.w st'.nss p = false := by
+  induction ps generalizing st with
+  | nil => simp
+  | cons p ps ih =>
+    have hne' : ∀ q ∈ ps, q ≠ [] := fun q hq => hne q (List.mem_cons_of_mem _ hq)
+    have hreach : ∀ s : State W, Reach U (fun _ _ _ _ => True) s (ancestorLoop U tgt ps s).2 :=
+      fun s => reach_ancestorLoop U (fun _ _ _ _ => True) tgt ps s (fun _ _ _ _ _ => trivial)
+    rw [ancestorLoop_cons] at h
+    split at h
+    · rename_i hs
+      intro q hq
+      rcases List.mem_cons.1 hq with rfl | hq
+      · have := (Reach.resolved_stable hS (hreach st) q).2 hk hs
+        rw [h] at this; exact this
+      · exact ih st h htgt hne' hk q hq
+    · split at h
+      · simp at h
+      · split at h
+        · simp at h
+        · split at h
+          · simp at h
+          · rename_i hr
+            have hr' : (tryImport U ⟨p, p⟩ tgt true (st.withW (U.exists_ st.w p).2)).1 = true := by simpa using hr
+            have hk1 : NsKnown known (st.withW (U.exists_ st.w p).2).w (st.withW (U.exists_ st.w p).2).nss :=
+              nsKnown_step hS (Or.inr ⟨p, rfl⟩) hk
+            have hk2 := (Reach.resolved_stable hS (Reach.tryImp (U := U) (P := fun _ _ _ _ => True) ⟨p, p⟩ tgt true
+                (.refl (st.withW (U.exists_ st.w p).2)) trivial) p).1 hk1
+            obtain ⟨v, hex, hl, hw, _, _⟩ := tryImport_true U ⟨p, p⟩ tgt true (st.withW (U.exists_ st.w p).2) _
+              (Prod.ext hr' rfl) htgt
+            have hlen := tryImport_length U ⟨p, p⟩ tgt true (st.withW (U.exists_ st.w p).2)
+            simp only [State.withW_nss] at hlen
+            have hpne := hne p List.mem_cons_self
+            -- `import p` made `p` reachable from the object it bound
+            have hres : symbolNeedsImport U ((tryImport U ⟨p, p⟩ tgt true (st.withW (U.exists_ st.w p).2)).2.withAtt p true).w
+                ((tryImport U ⟨p, p⟩ tgt true (st.withW (U.exists_ st.w p).2)).2.withAtt p true).nss p = false := by
+              have hw' := hS.plain_sound hpne hex
+              simp only [State.withAtt_w, State.withAtt_nss, hw]
+              cases p with
+              | nil => exact absurd rfl hpne
+              | cons hd tl =>
+                exact sni_false_of_binding (by rw [hlen]; exact htgt) (by rw [name0_plain] at hl; exact hl) hw'
+            intro q hq
+            rcases List.mem_cons.1 hq with rfl | hq
+            · have := (Reach.resolved_stable hS (hreach _) q).2 (by simpa using hk2) hres
+              rw [h] at this; exact this
+            · exact ih _ h (by simp [hlen]; exact htgt) hne' (by simpa using hk2) q hq
+
+theorem autoImportSymbol_true_resolved (db : DB) (hdb : DbKeyed db) (hshape : DbShape db) (viaStr : Bool) (d : Dotted)
+    (st st' : State W) (hnss : st.nss ≠ []) (hd : d ≠ []) (hk : NsKnown known st.w st.nss)
+    (h : autoImportSymbol U db viaStr d st = (.ok true, st')) :
+    symbolNeedsImport U st'.w st'.nss d = false := by
+  have htgt : st.nss.length - 1 < st.nss.length := by
+    have : 0 < st.nss.length := List.length_pos_iff.2 hnss
+    omega
+  have hloop : ∀ s : State W, s.nss.length = st.nss.length → NsKnown known s.w s.nss →
+      (Outcome.ok (ancestorLoop U (st.nss.length - 1) (prefixes d) s).1,
+        (ancestorLoop U (st.nss.length - 1) (prefixes d) s).2) = (Outcome.ok true, st') →
+      symbolNeedsImport U st'.w st'.nss d = false := by
+    intro s hlen hks hl
+    have h1 := congrArg Prod.fst hl
+    have h2 := congrArg Prod.snd hl
+    simp at h1 h2
+    exact ancestorLoop_true_resolved hS _ _ s st' (Prod.ext h1 h2) (by rw [hlen]; exact htgt)
+      (fun p hp => prefixes_ne_nil hp) hks d (self_mem_prefixes hd)
+  rw [autoImportSymbol_eq] at h
+  split at h
+  · rename_i hs
+    have : st' = st := by simpa using (congrArg Prod.snd h).symm
+    subst this
+    exact hs
+  · split at h
+    · simp at h
+    · split at h
+      · exact hloop st rfl hk h
+      · simp at h
+      · rename_i imp hkn
+        obtain ⟨key, hkp, hlk⟩ := getKnownImport_some hkn
+        have hias : imp.importAs = key := hdb key [imp] hlk imp (by simp)
+        split at h
+        · exact hloop st rfl hk h
+        · split at h
+          · simp at h
+          · rename_i hr
+            have hr' : (tryImport U imp (st.nss.length - 1) false st).1 = true := by simpa using hr
+            obtain ⟨v, hex, hl, hw, _, _⟩ := tryImport_true U imp _ false st _ (Prod.ext hr' rfl) htgt
+            have hlen := tryImport_length U imp (st.nss.length - 1) false st
+            have hk2 := (Reach.resolved_stable hS (Reach.tryImp (U := U) (P := fun _ _ _ _ => True) imp
+                (st.nss.length - 1) false (.refl st) trivial) d).1 hk
+            split at h
+            · rename_i hcond
+              have : st' = _ := (congrArg Prod.snd h).symm
+              subst this
+              simp only [State.withAtt_w, State.withAtt_nss, hw]
+              by_cases hplain : imp.importAs = imp.fullname
+              · -- `import d` itself (direct call with a `str`)
+                rcases hcond with hc | hc
+                · have hid : imp.importAs = d := by
+                    have : imp.importAs == d := by
+                      cases viaStr <;> simp at hc ⊢; exact hc
+                    simpa using this
+                  have himp : imp = ⟨d, d⟩ := by
+                    cases imp; simp at hid hplain ⊢; exact ⟨hplain ▸ hid, hid⟩
+                  subst himp
+                  have hw' := hS.plain_sound hd hex
+                  cases d with
+                  | nil => exact absurd rfl hd
+                  | cons hdn tl =>
+                    exact sni_false_of_binding (by rw [hlen]; exact htgt) (by rw [name0_plain] at hl; exact hl) hw'
+                · exact absurd hplain hc
+              · -- an alias / from-import: it binds the single name that is the head of `d`
+                obtain ⟨n, hn⟩ := hshape key [imp] hlk imp (by simp) hplain
+                have hop := hS.alias_opaque hplain hex
+                rw [hn] at hop
+                have hkey : key = [n] := by rw [← hias, hn]
+                have hdh : d.head? = some n := by rw [← prefixes_head hkp, hkey]; rfl
+                cases d with
+                | nil => exact absurd rfl hd
+                | cons hdn tl =>
+                  simp at hdh; subst hdh
+                  have hl' : (getNs (tryImport U imp (st.nss.length - 1) false st).2.nss (st.nss.length - 1)).lookup hdn = some v := by
+                    rw [name0, hn] at hl; exact hl
+                  refine sni_false_of_binding (by rw [hlen]; exact htgt) hl' ?_
+                  cases tl with
+                  | nil => simp [walk]
+                  | cons x xs => simp [walk, hop]
+            · exact hloop _ (by simp [hlen]) (by simpa using hk2) h
+      · simp at h
+
+/-- **C07_success_resolves.**  In a universe satisfying `Sound`, if `auto_import` reports success
+    then `symbol_needs_import` is False, in the final namespaces and world, for EVERY missing
+    name — later imports of the same call never un-resolve an earlier one. -/
+theorem C07_success_resolves (db : DB) (hdb : DbKeyed db) (hshape : DbShape db) (missing : List Dotted)
+    (st st' : State W) (hnss : st.nss ≠ []) (hne : ∀ d ∈ missing, d ≠ []) (hk : NsKnown known st.w st.nss)
+    (h : autoImport U db (some missing) st = (.ok true, st')) :
+    ∀ d ∈ missing, symbolNeedsImport U st'.w st'.nss d = false := by
+  intro d hd
+  obtain ⟨pre, post, rfl⟩ := List.append_of_mem hd
+  obtain ⟨_, hall⟩ := foldSyms_true U db _ true st st' h
+  obtain ⟨s, s1, hs, hstep, hrest, hlen⟩ := hall pre d post rfl
+  have hsn : s.nss ≠ [] := by
+    intro he; rw [he] at hlen; simp at hlen
+    exact hnss (List.eq_nil_of_length_eq_zero hlen.symm)
+  have hks : NsKnown known s.w s.nss := by
+    rw [← hs]; exact (Reach.resolved_stable hS (reach_foldSyms U db pre true st) d).1 hk
+  have hr1 := autoImportSymbol_true_resolved hS db hdb hshape false d s s1 hsn (hne d hd) hks hstep
+  have hks1 : NsKnown known s1.w s1.nss := by
+    have := (Reach.resolved_stable hS (reach_autoImportSymbol U db false d s) d).1 hks
+    rw [hstep] at this; exact this
+  have := (Reach.resolved_stable hS (reach_foldSyms U db post true s1) d).2 hks1 hr1
+  rw [hrest] at this; exact this
+
+end
+
+/-! ### C07_provenance -/
+
+/-- where the binding `k` added by call `c` may come from -/
+def CallProvenance (U : Univ W) (db : DB) (c : Call) (r : Rec) : Prop :=
+  let ofName (d : Dotted) : Prop :=
+    (r.loop = false ∧ getKnownImport db d = some [r.imp]) ∨
+    (r.loop = true ∧ ∃ p ∈ prefixes d, r.imp = ⟨p, p⟩ ∧ ∃ w, (U.exists_ w p).1 = true)
+  match c with
+  | .code (some ds) => ∃ d ∈ ds, ofName d
+  | .code none => False
+  | .symbol d => ofName d
+  | .tryImp imp _ => r.imp = imp
+  | .newCell => False
+
+/-- **C07_provenance.**  Every binding a history adds was yielded by an executed import statement
+    that is, for some missing name `d` of some call, either THE unique database entry of the deepest
+    prefix of `d` known to the database (`getKnownImport db d = some [imp]`), or `import p` for a
+    prefix `p` of `d` (a module path spelled in the code) for which `exists` answered True. -/
+theorem C07_provenance (U : Univ W) (db : DB) (cs : List Call) (st : State W)
+    (i : Nat) (k : Name) (v : Obj)
+    (hafter : (getNs (run U db cs st).2.nss i).lookup k = some v)
+    (hbefore : (getNs st.nss i).lookup k = none) :
+    ∃ r ∈ C06.newLog U db cs st, r.tgt = i ∧ name0 r.imp = k ∧ r.res = some v ∧
+      ∃ c ∈ cs, CallProvenance U db c r := by
+  obtain ⟨new, hn, h⟩ := C06.newLog_spec U db cs st
+  rw [hn]
+  obtain ⟨r, hr, htgt, hname, hres, _, _⟩ := h.origin i k v hafter hbefore
+  obtain ⟨s, ⟨c, hc, hca⟩, _, _, _⟩ := h.allowed r hr
+  refine ⟨r, hr, htgt, hname, hres, c, hc, ?_⟩
+  cases c with
+  | code m =>
+    cases m with
+    | none => exact hca.elim
+    | some ds =>
+      obtain ⟨d, hd, _, _, hch⟩ := hca
+      exact ⟨d, hd, hch⟩
+  | symbol d => exact hca.2.2
+  | tryImp imp ns => exact hca.1
+  | newCell => exact hca.elim
+
+/-! ### C07_ambiguous -/
+
+/-- **C07_ambiguous** (one name).  A name that still needs import and whose deepest known prefix has
+    two or more candidate imports: `auto_import_symbol` reports failure, executes nothing, binds
+    nothing — namespaces, world, log and failed set are unchanged. -/
+theorem C07_ambiguous_symbol (U : Univ W) (db : DB) (viaStr : Bool) (d : Dotted) (st : State W)
+    (i1 i2 : Import) (rest : List Import) (hamb : getKnownImport db d = some (i1 :: i2 :: rest))
+    (hneed : symbolNeedsImport U st.w st.nss d = true) :
+    (autoImportSymbol U db viaStr d st).1 = .ok false ∧
+    (autoImportSymbol U db viaStr d st).2.nss = st.nss ∧
+    (autoImportSymbol U db viaStr d st).2.log = st.log ∧
+    (autoImportSymbol U db viaStr d st).2.failed = st.failed ∧
+    (autoImportSymbol U db viaStr d st).2.w = st.w := by
+  rw [autoImportSymbol_eq]
+  simp only [hneed, Bool.true_eq_false, if_false]
+  split
+  · exact ⟨rfl, rfl, rfl, rfl, rfl⟩
+  · simp only [hamb]
+    refine ⟨?_, ?_, ?_, ?_, ?_⟩ <;> first | rfl | trivial
+
+/-- **C07_ambiguous.**  `auto_import` never reports success when, at its turn, a missing name still
+    needs import and has two or more candidates. -/
+theorem C07_ambiguous (U : Univ W) (db : DB) (pre post : List Dotted) (d : Dotted) (st st' : State W)
+    (i1 i2 : Import) (rest : List Import) (hamb : getKnownImport db d = some (i1 :: i2 :: rest))
+    (hneed : symbolNeedsImport U (foldSyms U db pre true st).2.w (foldSyms U db pre true st).2.nss d = true) :
+    autoImport U db (some (pre ++ d :: post)) st ≠ (.ok true, st') := by
+  intro h
+  obtain ⟨_, hall⟩ := foldSyms_true U db _ true st st' h
+  obtain ⟨s, s1, hs, hstep, _, _⟩ := hall pre d post rfl
+  subst hs
+  have := (C07_ambiguous_symbol U db false d _ i1 i2 rest hamb hneed).1
+  rw [hstep] at this
+  simp at this
+
+/-! ### C07_unknown -/
+
+theorem ancestorLoop_unknown (U : Univ W) (tgt : Nat) (ps : List Dotted) (st : State W)
+    (hex : ∀ p ∈ ps, ∀ w, (U.exists_ w p).1 = false)
+    (hneed : ∃ p ∈ ps, symbolNeedsImport U st.w st.nss p = true) :
+    (ancestorLoop U tgt ps st).1 = false ∧ (ancestorLoop U tgt ps st).2.nss = st.nss ∧
+    (ancestorLoop U tgt ps st).2.log = st.log ∧ (ancestorLoop U tgt ps st).2.failed = st.failed := by
+  induction ps with
+  | nil => obtain ⟨p, hp, _⟩ := hneed; simp at hp
+  | cons p ps ih =>
+    rw [ancestorLoop_cons]
+    split
+    · rename_i hs
+      apply ih (fun q hq => hex q (List.mem_cons_of_mem _ hq))
+      obtain ⟨q, hq, hqs⟩ := hneed
+      rcases List.mem_cons.1 hq with rfl | hq
+      · rw [hs] at hqs; simp at hqs
+      · exact ⟨q, hq, hqs⟩
+    · split
+      · exact ⟨rfl, rfl, rfl, rfl⟩
+      · simp only [hex p List.mem_cons_self st.w, if_true]
+        refine ⟨?_, ?_, ?_, ?_⟩ <;> first | rfl | trivial
+
+/-- **C07_unknown** (one name).  A name that needs import, has no database candidate for any of
+    its prefixes, and none of whose prefixes is an existing module: `auto_import_symbol` reports
+    failure, executes no import and binds nothing. -/
+theorem C07_unknown_symbol (U : Univ W) (db : DB) (viaStr : Bool) (d : Dotted) (st : State W) (hd : d ≠ [])
+    (hnone : getKnownImport db d = none)
+    (hex : ∀ p ∈ prefixes d, ∀ w, (U.exists_ w p).1 = false)
+    (hneed : symbolNeedsImport U st.w st.nss d = true) :
+    (autoImportSymbol U db viaStr d st).1 = .ok false ∧
+    (autoImportSymbol U db viaStr d st).2.nss = st.nss ∧
+    (autoImportSymbol U db viaStr d st).2.log = st.log ∧
+    (autoImportSymbol U db viaStr d st).2.failed = st.failed := by
+  rw [autoImportSymbol_eq]
+  simp only [hneed, Bool.true_eq_false, if_false]
+  split
+  · exact ⟨rfl, rfl, rfl, rfl⟩
+  · simp only [hnone]
+    obtain ⟨h1, h2, h3, h4⟩ := ancestorLoop_unknown U (st.nss.length - 1) (prefixes d) st hex
+      ⟨d, self_mem_prefixes hd, hneed⟩
+    exact ⟨by rw [h1], h2, h3, h4⟩
+
+/-- **C07_unknown.**  `auto_import` never reports success when, at its turn, a missing name still
+    needs import, has no candidate and no existing module. -/
+theorem C07_unknown (U : Univ W) (db : DB) (pre post : List Dotted) (d : Dotted) (st st' : State W) (hd : d ≠ [])
+    (hnone : getKnownImport db d = none)
+    (hex : ∀ p ∈ prefixes d, ∀ w, (U.exists_ w p).1 = false)
+    (hneed : symbolNeedsImport U (foldSyms U db pre true st).2.w (foldSyms U db pre true st).2.nss d = true) :
+    autoImport U db (some (pre ++ d :: post)) st ≠ (.ok true, st') := by
+  intro h
+  obtain ⟨_, hall⟩ := foldSyms_true U db _ true st st' h
+  obtain ⟨s, s1, hs, hstep, _, _⟩ := hall pre d post rfl
+  subst hs
+  have := (C07_unknown_symbol U db false d _ hd hnone hex hneed).1
+  rw [hstep] at this
+  simp at this
+
+/-! ### the shapes of the database lookup the code asserts on (D15) -/
+
+/-- An EMPTY candidate tuple for the deepest known prefix (what `by_fullname_or_import_as` holds after
+    a derived parent import was forgotten — D15) makes `auto_import_symbol` hit
+    `assert len(imports) >= 1`; nothing is changed, but no result is reported. -/
+theorem D15_empty_tuple_asserts (U : Univ W) (db : DB) (viaStr : Bool) (d : Dotted) (st : State W)
+    (hempty : getKnownImport db d = some [])
+    (hneed : symbolNeedsImport U st.w st.nss d = true) (hatt : st.attempted.lookup d = none) :
+    autoImportSymbol U db viaStr d st = (.assertion, st) := by
+  rw [autoImportSymbol_eq]
+  simp [hneed, hatt, hempty]
+
+end Pfb.C07
+
+/-! ### hypotheses are satisfiable; why `alias_opaque` cannot be dropped -/
+
+namespace Pfb.C07.Witness
+open Pfb.AutoImp Pfb.C07
+
+/-- a small universe satisfying `Sound`: every import succeeds and yields a fresh-looking object,
+    nothing is registered in sys.modules -/
+def toyU : Univ Unit :=
+  ⟨fun _ i => (some (i.importAs.length + 10), ()), fun _ _ => (true, ()), fun _ _ => none, fun _ _ _ => none⟩
+
+theorem toy_sound : Sound toyU (fun _ _ => True) where
+  mods_mono := by intro _ _ _ _ _ h; simp [toyU] at h
+  attr_mono := by intro _ _ _ _ _ _ h; simp [toyU] at h
+  known_mono := by intros; trivial
+  fresh := by intro _ _ _ _ _ _ h; simp [toyU] at h
+  known_attr := by intros; trivial
+  exec_known := by intros; trivial
+  plain_sound := by
+    intro _ p o _ _
+    cases h : p.tail with
+    | nil => simp [walk]
+    | cons x xs => simp [walk, toyU]
+  alias_opaque := by intro _ _ _ _ _; simp [toyU]
+
+/-- `C07_success_resolves` applied to a non-trivial input: two missing dotted names, a database with
+    an alias entry, an initially empty namespace -/
+example :
+    let db : DB := [([['n', 'p']], [⟨[['n', 'u', 'm']], [['n', 'p']]⟩])]
+    let missing : List Dotted := [[['n', 'p'], ['a']], [['o', 's'], ['p']]]
+    let st : State Unit := ⟨[[]], [], [], (), []⟩
+    (autoImport toyU db (some missing) st).1 = .ok true ∧
+    ∀ d ∈ missing, symbolNeedsImport toyU (autoImport toyU db (some missing) st).2.w
+      (autoImport toyU db (some missing) st).2.nss d = false := by
+  intro db missing st
+  have h1 : (autoImport toyU db (some missing) st).1 = .ok true := by decide
+  refine ⟨h1, ?_⟩
+  have hdb : DbKeyed db := by
+    intro k imps hl imp hi
+    by_cases hk : k = [['n', 'p']]
+    · subst hk; simp [db, List.lookup_cons] at hl; subst hl; simp at hi; subst hi; rfl
+    · have : ([['n', 'p']] == k) = false := by simpa using fun h => hk h.symm
+      simp [db, List.lookup_cons, this] at hl
+      have : (k == [['n', 'p']]) = false := by simpa using hk
+      simp [this] at hl
+  have hshape : DbShape db := by
+    intro k imps hl imp hi _
+    by_cases hk : k = [['n', 'p']]
+    · subst hk; simp [db, List.lookup_cons] at hl; subst hl; simp at hi; subst hi; exact ⟨_, rfl⟩
+    · have : (k == [['n', 'p']]) = false := by simpa using hk
+      simp [db, List.lookup_cons, this] at hl
+  exact C07_success_resolves toy_sound db hdb hshape missing st _ (by simp [st]) (by simp [missing])
+    (fun _ _ _ _ => trivial) (Prod.ext h1 rfl)
+
+def vqa : Name := ['v', 'q', 'a']
+def vqb : Name := ['v', 'q', 'b']
+
+/-- module `vqb`; module `vqa` whose body does `vqb = sys.modules.get('vqb')` -/
+def spec : List ModSpec := [⟨[vqb], false, .no, [], []⟩, ⟨[vqa], false, .no, [], [.alias vqb [vqb]]⟩]
+def w0 : PyW := (PyW.importChain (PyW.empty spec) [vqb]).2
+/-- `by_fullname_or_import_as` of `ImportDB("from vqa import vqb")` -/
+def db : DB := [([vqb], [⟨[vqa, vqb], [vqb]⟩]), ([vqa], [⟨[vqa], [vqa]⟩])]
+def st0 : State PyW := { nss := [[]], failed := [], attempted := [], w := w0, log := [] }
+def name : Dotted := [vqb, ['n'], ['x']]
+
+/-- `auto_import("vqb.n.x", [{}], db)`: the unique entry for `vqb` is a from-import that happens to
+    yield the module registered as `vqb`; the call reports success, `vqb` is bound (no NameError),
+    but `symbol_needs_import("vqb.n.x")` is still True — `alias_opaque` is a real hypothesis of
+    `C07_success_resolves`, not of `C07_success_heads_bound`.
+    (Real-world shape: `from os import sys` in the database and code reading `sys.nosuch.x`.) -/
+theorem alias_registry_witness :
+    (autoImport pyUniv db (some [name]) st0).1 = .ok true ∧
+    (getNs (autoImport pyUniv db (some [name]) st0).2.nss 0).lookup vqb = some 1 ∧
+    pyUniv.modOf (autoImport pyUniv db (some [name]) st0).2.w [vqb] = some 1 ∧
+    symbolNeedsImport pyUniv (autoImport pyUniv db (some [name]) st0).2.w
+      (autoImport pyUniv db (some [name]) st0).2.nss name = true := by decide
+
+end Pfb.C07.Witness
